@@ -60,8 +60,7 @@ def gen_history(r, maxlen):
 def run_impl(ops):
     """Execute the history through a Deferred chain on the real client; returns [(t, bytes)], op boundaries."""
     clock = task.Clock()
-    old = vclient.reactor
-    vclient.reactor = clock
+    old = use_reactor(clock); old.__enter__()
     try:
         c, trace = connect()
         stamped = []
@@ -119,7 +118,7 @@ def run_impl(ops):
             return {"err": "chain did not finish"}
         return {"events": stamped, "marks": marks}
     finally:
-        vclient.reactor = old
+        old.__exit__(None, None, None)
 
 
 def oracle(ops, res):
